@@ -3,7 +3,7 @@ CONSTANTS
   Cfgs <- MC_CfgsThorough
   Lens <- MC_LensT
   Ds <- MC_DsT
-  MaxEx = 5
+  MaxEx = 4
   MaxFaults = 3
   MaxStepFaults = 2
   Vs <- MC_VsFixed
